@@ -27,7 +27,7 @@ func genProtoPlan(r *rand.Rand) *plan.Plan {
 	// poll loop); goroutines run under synctest's fake clock only.
 	k := plan.Knobs{Sched: false, Procs: 2, PQS: &boolF}
 	p := &plan.Plan{Knobs: k, Params: map[string]any{}}
-	inc := plan.Incarnation{Boot: "full", SchedSeed: r.Uint64() | 1}
+	inc := plan.Incarnation{Boot: "full", SchedSeed: r.Uint64()>>11 | 1}
 	// the fake clock is moved to a known, odd instant first
 	inc.Ops = append(inc.Ops, plan.Op{Kind: "advance", DurMs: int64(1000 + r.IntN(5_000_000))})
 	protos := []string{"es_bulk", "es_doc", "hec", "loki"}
